@@ -210,6 +210,44 @@ pub fn long_pattern(fam: u8, k: usize, var: u8) -> (Vec<u32>, Vec<u32>, &'static
             let n: Vec<u32> = (0..m).map(|_| (next() % alpha) as u32).collect();
             (o, n, "pseudo-random sequences over 2..=4 symbols (fixed xorshift generator, variant = seed)")
         }
+        // two blocks of different items that swapped places (all items unique on both sides)
+        9 => {
+            let a: Vec<u32> = (0..k as u32).collect();
+            let bl = match var {
+                0 => k,
+                1 => k / 2,
+                _ => k + 7,
+            };
+            let b: Vec<u32> = (0..bl as u32).map(|i| 50_000 + i).collect();
+            match var {
+                0 | 1 => (cat(&[&a, &b]), cat(&[&b, &a]), "A B  against  B A (blocks of k and k or k/2 different items)"),
+                _ => (cat(&[&[90_000], &a, &[90_001], &b]), cat(&[&[90_000], &b, &[90_001], &a]), "p A q B  against  p B q A (blocks of k and k+7 different items)"),
+            }
+        }
+        // mostly similar inputs with many small edits, then two blocks that swapped places (the
+        // shorter one first on the old side, with old-only items between them), then unrelated tails
+        10 => {
+            let (mut o, mut n): (Vec<u32>, Vec<u32>) = (vec![], vec![]);
+            for i in 0..k as u32 {
+                if i % 2 == 0 {
+                    o.push(100_000 + i);
+                } else {
+                    n.push(200_000 + i);
+                }
+                for c in 0..2 {
+                    o.push(10_000 + 2 * i + c);
+                    n.push(10_000 + 2 * i + c);
+                }
+            }
+            let rl = (k / 8).max(20) as u32;
+            let (jl, sl, tl) = (20u32, rl + 10 + 5 * var as u32, (5 * k / 8) as u32);
+            let r: Vec<u32> = (0..rl).map(|i| 1_000 + i).collect();
+            let j: Vec<u32> = (0..jl).map(|i| 3_000 + i).collect();
+            let s: Vec<u32> = (0..sl).map(|i| 5_000 + i).collect();
+            let to: Vec<u32> = (0..tl).map(|i| 300_000 + i).collect();
+            let tn: Vec<u32> = (0..tl).map(|i| 400_000 + i).collect();
+            (cat(&[&o, &r, &j, &s, &to]), cat(&[&n, &s, &r, &tn]), "k small edits in equal material, then R J S against S R (|R| < |S|), then unrelated tails")
+        }
         // k different items, every 16th replaced
         _ => {
             let o: Vec<u32> = (0..k as u32).collect();
@@ -227,7 +265,7 @@ pub fn long_layouts(thorough: bool) -> Vec<Layout> {
         (3, 101, 0), (3, 151, 1), (3, 61, 2), (4, 150, 0), (4, 60, 1), (4, 40, 2), (4, 120, 3), (4, 130, 4), (4, 70, 5),
         (5, 130, 0), (5, 130, 1), (5, 120, 2), (5, 120, 3), (6, 160, 0),
         // search depths of 500..1500 rounds
-        (2, 520, 0), (7, 3000, 0), (7, 2600, 2),
+        (2, 520, 0), (7, 3000, 0), (7, 2600, 2), (9, 260, 0), (9, 300, 1), (9, 257, 2),
     ];
     let more: &[(u8, u16, u8)] = &[
         (0, 33, 0), (0, 64, 0), (0, 100, 1), (1, 150, 0), (1, 128, 1), (1, 100, 2), (2, 700, 0), (2, 400, 1), (2, 257, 2),
@@ -239,7 +277,7 @@ pub fn long_layouts(thorough: bool) -> Vec<Layout> {
         (0, 4, 0), (0, 6, 1), (0, 9, 2), (0, 15, 0), (1, 4, 0), (1, 8, 1), (1, 12, 2), (1, 5, 3), (2, 9, 0), (2, 17, 1), (2, 24, 0), (2, 33, 2), (2, 48, 1),
         (3, 9, 0), (3, 17, 1), (3, 25, 2), (3, 33, 0), (4, 8, 0), (4, 9, 1), (4, 11, 2), (4, 16, 3), (4, 17, 0), (4, 31, 4), (4, 33, 0), (4, 16, 5),
         (5, 9, 0), (5, 16, 1), (5, 20, 2), (5, 33, 3), (5, 63, 0), (5, 64, 1), (6, 17, 0), (6, 40, 0), (6, 64, 0),
-        (7, 30, 0), (7, 40, 1), (7, 33, 2), (7, 30, 3), (7, 300, 1),
+        (7, 30, 0), (7, 40, 1), (7, 33, 2), (7, 30, 3), (7, 300, 1), (9, 12, 0), (9, 30, 1), (9, 20, 2),
     ];
     for &(fam, k, var) in mid.iter().chain(quick.iter()).chain(if thorough { more.iter() } else { [].iter() }) {
         v.push(Layout::Long { fam, k, var, pad: 0 });
